@@ -34,6 +34,28 @@ def subst_params(lin, func, call, caller_env):
     return out
 
 
+def ds_failure_rule(chk, G, dsc, rule):
+    for c in dsc:
+        hv = common.holder(G, c)
+        tests = []
+        if hv is not None:
+            isx = lambda n, hv=hv: n.k == 'DeclRefExpr' and (n.get('ref') or {}).get('id') == hv
+            tests = [b for b in common.blocks_testing(G, isx) if len(b.all_succs) == 2]
+        if not tests:
+            raise AnalysisBroken('the result of %s is not tested in %s' % (DS_CALL, GEN))
+        for b in tests:
+            vals = {v: common.const_eval(b.cond, {hv: v}) for v in (-1, 0, 1, 5, 2047)}
+            if any(x is None for x in vals.values()):
+                continue
+            okf = vals[0] == vals[1] == vals[5] == vals[2047] and vals[-1] != vals[0]
+            chk.ob(rule, 'failure-means-negative', okf, b.cond.where(), G.name,
+                   'the test %s of the data source result treats %s like a failure: a data source that produced the empty '
+                   'string (0 characters: an empty command line or file name) is then reported as "[ERROR: Data source ... '
+                   'failed ...]" instead of contributing nothing' % (
+                       render(b.cond)[:60], ', '.join(str(v) for v in (0, 1, 5, 2047) if vals[v] == vals[-1]) or 'a success value'),
+                   how='the branch is the same for 0, 1, 5 and 2047 and differs for -1')
+
+
 def run(ctx):
     chk = ctx.chk
     chk.rule('L1', 'a data source is handed a buffer of exactly datasource_message_max_length + 1 bytes (and that size), '
@@ -44,6 +66,8 @@ def run(ctx):
                    'cut to that limit)', floor=1)
     chk.rule('L5', 'the name and argument buffers of a tag are rebuilt for every tag (nothing of the previous tag is reused)', floor=1)
     chk.rule('L6', 'the name looked up for a tag starts at the first character of the tag (an empty name is an unknown data source)', floor=1)
+    chk.rule('L7', 'a data source result counts as a failure only when it is negative: the empty value (0 characters) and '
+                   'every longer value take the same branch', floor=1)
     chk.rule('L3', 'the ident and path templates are expanded into fixed buffers with their own size as the limit', floor=2)
     chk.explanation = (
         'Decides only the two length clauses. Sizes are composed symbolically across the three call levels (action -> '
@@ -187,6 +211,8 @@ def run(ctx):
                'or "%%{::env:X}" runs a data source instead of giving the "not found" error for the empty name' % why,
                how='the name pointer is the tag buffer (the argument is split off behind the first ":")')
     # what is appended after the call is the buffer itself
+    # ---- L7: which results of a data source are treated as failures ----------------------------------------------
+    ds_failure_rule(chk, G, dsc, 'L7')
     # ---- L2 ------------------------------------------------------------------------------------
     msg = decl_of(arg(gc, 0))
     cap = None
